@@ -173,6 +173,8 @@ class Concretiser:
             pass
         if object_inner and e["k"] == "obj" and (self.plain or self.rnd.random() < 0.6):
             toks = toks[1:-1]     # `data="{{ a: 1 }}"`: the braces of the binding are the object's
+        if object_inner and e["k"] == "id":
+            toks = ["("] + toks + [")"]        # `data="{{ o }}"` would be the object literal {o: o}
         style = 0 if self.plain else self.rnd.choice([0, 0, 1, 2])
         return join_tokens(toks, self.rnd, style)
 
